@@ -434,4 +434,330 @@ theorem evs_quiet (v : VId) (ir : Nat → Bool) (ep : String) (sh : Shared) (j :
     subst h
     simp [view_balRead]
 
+-- ------------------------------------------------------------------------------------------------ the invariant
+
+/-- what a view needs to know about a request and its entry point (hypotheses of the theorems, via the admission
+predicate): the reference view — only `CreateTransaction` produces `create` logs; the revert view — `RevertTransaction`
+produces exactly the `revert` logs, and `isRevert` says which requests are reverts -/
+def JobOkV (ir : Nat → Bool) : VId → Job → Prop
+  | .ik, _ => True
+  | .ref, j => j.req.kind = .create → j.ep = "CreateTransaction"
+  | .rev, j => (j.req.kind = .revert ↔ j.ep = "RevertTransaction") ∧ ir j.a = decide (j.req.kind = .revert)
+
+/-- a log that reverts `t` only exists next to a persisted log of transaction `t` -/
+def RevWf (store : List LogE) (queue : List (Nat × LogE)) : Prop :=
+  ∀ l, (l ∈ store ∨ l ∈ queue.map (·.2)) → ∀ t, l.reverts = some t → store.any (fun l' => l'.txid = some t) = true
+
+def SInv : VId → Shared → Prop
+  | .rev, sh => RevWf sh.store sh.queue
+  | _, _ => True
+
+/-- one request: its automaton state `ph` against the commander's state and the machine's -/
+structure PInv (v : VId) (ir : Nat → Bool) (sh : Shared) (s : Guard.S) (j : Job) (rg : Regs) (ph : GPh) : Prop where
+  job : JobOkV ir v j
+  held : ∀ k, (k, j.a) ∈ s.held ↔ (ph.hold ≠ .idle ∧ k = j.key v.K)
+  sys : ∀ k, (v.K, k, j.a) ∈ sh.held ↔ (sysOf ph.hold = true ∧ k = j.key v.K)
+  miss : ∀ b, ph.hold = .on .missed b → (j.a, j.key v.K) ∈ s.missed
+  look : ∀ b, ph.hold = .on .looked b →
+    v = .rev ∧ j.ep = "RevertTransaction" ∧ (rg.reverted = some false → (j.a, j.key v.K) ∈ s.missed)
+  seen : v = .rev → seenOf ph.hold = true → sh.store.any (fun l => l.txid = some j.req.target) = true
+  clean : ph.dirty = false → ∀ q ∈ sh.queue, q.1 ≠ j.a
+  r1 : ph.may = false → v.keyOf (j.content rg.ikSet) = ""
+  r2 : ∀ l, rg.chained = some l → (v.keyOf l = "" ∨ v.keyOf l = j.key v.K) ∧
+    (l.reverts = none ∨ l.reverts = some j.req.target) ∧ (ph.may = false → v.keyOf l = "")
+
+theorem job_rev {ir : Nat → Bool} {v : VId} {j : Job} (h : JobOkV ir v j) :
+    v = .rev → j.ep ≠ "RevertTransaction" → ir j.a = false := by
+  intro hv hep
+  subst hv
+  obtain ⟨h1, h2⟩ := h
+  rw [h2]
+  simp only [decide_eq_false_iff_not]
+  exact fun hk => hep (h1.1 hk)
+
+theorem content_key (v : VId) (j : Job) (b : Bool) : v.keyOf (j.content b) = "" ∨ v.keyOf (j.content b) = j.key v.K := by
+  cases v <;> simp only [VId.keyOf, Job.content, Job.key, VId.K]
+  · cases b <;> simp
+  · split <;> simp
+  · split <;> simp [Guard.revKey]
+
+theorem content_reverts (j : Job) (b : Bool) : (j.content b).reverts = none ∨ (j.content b).reverts = some j.req.target := by
+  simp only [Job.content]
+  split <;> simp
+
+theorem content_key_indep (v : VId) (hv : v ≠ .ik) (j : Job) (b b' : Bool) : v.keyOf (j.content b) = v.keyOf (j.content b') := by
+  cases v
+  · exact absurd rfl hv
+  · rfl
+  · rfl
+
+theorem effRg_key (v : VId) (ep : String) (sh : Shared) (j : Job) (rg : Regs) (x : Item) (h : gtok v ep x ≠ .setKey) :
+    v.keyOf (j.content (effRg sh j rg x).ikSet) = v.keyOf (j.content rg.ikSet) := by
+  unfold effRg
+  split <;> (try rfl)
+  simp only [gtok, ne_eq, ite_eq_left_iff, reduceCtorEq, imp_false, Decidable.not_not] at h
+  exact content_key_indep v h j _ _
+
+theorem effRg_reverted (v : VId) (ep : String) (sh : Shared) (j : Job) (rg : Regs) (x : Item) (h : gtok v ep x ≠ .look) :
+    (effRg sh j rg x).reverted = rg.reverted ∨ ¬ (v = .rev ∧ ep = "RevertTransaction") := by
+  unfold effRg
+  split <;> (try exact .inl rfl)
+  simp only [gtok] at h
+  refine .inr (fun hc => h ?_)
+  simp [hc]
+
+theorem sinv_congr (v : VId) (sh sh' : Shared) (h1 : sh'.store = sh.store) (h2 : sh'.queue = sh.queue) (h : SInv v sh) :
+    SInv v sh' := by
+  cases v <;> simp only [SInv] at h ⊢
+  rw [h1, h2]; exact h
+
+/-- the part of a request's invariant that does not mention its automaton state moves along with any change that keeps
+the request's own reservations, misses and queue entries -/
+theorem pinv_congr (v : VId) (ir : Nat → Bool) (sh sh' : Shared) (s s' : Guard.S) (j : Job) (rg rg' : Regs) (ph : GPh)
+    (h : PInv v ir sh s j rg ph)
+    (hh : ∀ k, (k, j.a) ∈ s'.held ↔ (k, j.a) ∈ s.held)
+    (hm : ∀ k, (j.a, k) ∈ s.missed → (j.a, k) ∈ s'.missed)
+    (hs : ∀ k, (v.K, k, j.a) ∈ sh'.held ↔ (v.K, k, j.a) ∈ sh.held)
+    (hst : ∀ t, sh.store.any (fun l => l.txid = some t) = true → sh'.store.any (fun l => l.txid = some t) = true)
+    (hq : ∀ q ∈ sh'.queue, q.1 = j.a → q ∈ sh.queue)
+    (hc : rg'.chained = rg.chained)
+    (hk : v.keyOf (j.content rg'.ikSet) = v.keyOf (j.content rg.ikSet))
+    (hr : rg'.reverted = rg.reverted ∨ ¬ (v = .rev ∧ j.ep = "RevertTransaction")) :
+    PInv v ir sh' s' j rg' ph := by
+  refine ⟨h.job, fun k => (hh k).trans (h.held k), fun k => (hs k).trans (h.sys k), fun b hb => hm _ (h.miss b hb), ?_,
+    fun hv hs => hst _ (h.seen hv hs), ?_, fun hm => by rw [hk]; exact h.r1 hm, by rw [hc]; exact h.r2⟩
+  · intro b hb
+    obtain ⟨l1, l2, l3⟩ := h.look b hb
+    refine ⟨l1, l2, ?_⟩
+    rcases hr with hr | hr
+    · rw [hr]; exact fun h' => hm _ (l3 h')
+    · exact absurd ⟨l1, l2⟩ hr
+  · intro hd q hq' hqa
+    exact h.clean hd q (hq q hq' hqa) hqa
+
+/-- an item whose token leaves the automaton state alone, and to which the machine reacts at most by adding a miss -/
+theorem still (v : VId) (ir : Nat → Bool) (sh : Shared) (s s' : Guard.S) (j : Job) (rg : Regs) (x : Item) (ph : GPh)
+    (hP : PInv v ir sh s j rg ph) (hpend : s.pending = sh.queue.map (entryOf v)) (hS : SInv v sh)
+    (hh : ∀ k, (k, j.a) ∈ s'.held ↔ (k, j.a) ∈ s.held) (hm : ∀ k, (j.a, k) ∈ s.missed → (j.a, k) ∈ s'.missed)
+    (hp : s'.pending = s.pending)
+    (t1 : gtok v j.ep x ≠ .takeOk) (t2 : gtok v j.ep x ≠ .release) (t3 : gtok v j.ep x ≠ .append)
+    (t4 : gtok v j.ep x ≠ .setKey) (t5 : gtok v j.ep x ≠ .look) (t6 : gtok v j.ep x ≠ .chain) :
+    s'.pending = (effSh sh j rg x).queue.map (entryOf v) ∧ PInv v ir (effSh sh j rg x) s' j (effRg sh j rg x) ph ∧
+      SInv v (effSh sh j rg x) := by
+  have hq := effSh_queue v j.ep sh j rg x t3
+  refine ⟨by rw [hp, hq]; exact hpend, ?_, sinv_congr v sh _ (effSh_store ..) hq hS⟩
+  exact pinv_congr v ir sh _ s s' j rg _ ph hP hh hm (fun k => effSh_held_K v j.ep sh j rg x t1 t2 k j.a)
+    (fun t h => by rw [effSh_store]; exact h) (fun q hq' _ => by rw [hq] at hq'; exact hq')
+    (effRg_chained v j.ep sh j rg x t6) (effRg_key v j.ep sh j rg x t4) (effRg_reverted v j.ep sh j rg x t5)
+
+theorem dur_any (v : VId) (s : Guard.S) (sh : Shared)
+    (hdur : s.durable.map (fun e => (e.key, e.id)) = sh.store.map (fun l => (v.keyOf l, l.id))) (k : String) :
+    s.durable.any (·.key = k) = sh.store.any (fun l => v.keyOf l = k) := by
+  have h1 : s.durable.any (·.key = k) = (s.durable.map (fun e => (e.key, e.id))).any (fun x => x.1 = k) := by
+    simp [List.any_map, Function.comp_def]
+  rw [h1, hdur]
+  simp [List.any_map, Function.comp_def]
+
+theorem pend_clean (v : VId) (s : Guard.S) (sh : Shared) (a : Nat) (hpend : s.pending = sh.queue.map (entryOf v))
+    (hc : ∀ q ∈ sh.queue, q.1 ≠ a) : ∀ e ∈ s.pending, e.by_ ≠ a := by
+  intro e he
+  rw [hpend] at he
+  obtain ⟨q, hq, rfl⟩ := List.mem_map.mp he
+  exact hc q hq
+
+theorem isHeld_iff (s : Guard.S) (k : String) : Guard.isHeld s k = true ↔ ∃ b, (k, b) ∈ s.held := by
+  unfold Guard.isHeld
+  simp only [List.any_eq_true, decide_eq_true_eq, Prod.exists]
+  constructor
+  · rintro ⟨k', b, h, rfl⟩; exact ⟨b, h⟩
+  · rintro ⟨b, h⟩; exact ⟨k, b, h, rfl⟩
+
+/-- the automaton moves along the protocol (`held → looked → missed → spent`) without touching the tables -/
+theorem pinv_hold (v : VId) (ir : Nat → Bool) (sh : Shared) (s : Guard.S) (j : Job) (rg : Regs) (ph : GPh) (h' : Hold)
+    (h : PInv v ir sh s j rg ph) (e1 : h' ≠ .idle ↔ ph.hold ≠ .idle) (e2 : sysOf h' = sysOf ph.hold)
+    (e3 : ∀ b, h' = .on .missed b → (j.a, j.key v.K) ∈ s.missed)
+    (e4 : ∀ b, h' = .on .looked b →
+      v = .rev ∧ j.ep = "RevertTransaction" ∧ (rg.reverted = some false → (j.a, j.key v.K) ∈ s.missed))
+    (e5 : v = .rev → seenOf h' = true → sh.store.any (fun l => l.txid = some j.req.target) = true) :
+    PInv v ir sh s j rg { ph with hold := h' } :=
+  ⟨h.job, fun k => by rw [h.held k]; simp only [e1], fun k => by rw [h.sys k]; simp only [e2], e3, e4, e5, h.clean, h.r1, h.r2⟩
+
+theorem ir_of_rev {ir : Nat → Bool} {j : Job} (h : JobOkV ir .rev j) (hep : j.ep = "RevertTransaction") : ir j.a = true := by
+  obtain ⟨h1, h2⟩ := h
+  rw [h2]
+  simpa using h1.2 hep
+
+/-- **one item of one request**: the machine accepts what it emits and the request's part of the invariant moves with
+its automaton state.  `g1`/`g2`: the referencer's table is the machine's, as far as the OTHER requests are concerned
+(none of them is in a release window). -/
+theorem item_step (v : VId) (ir : Nat → Bool) (sh : Shared) (s : Guard.S) (j : Job) (rg : Regs) (x : Item) (ph ph' : GPh)
+    (hen : enabled sh j rg x = true) (hph : gstep ph (gtok v j.ep x) = some ph')
+    (hP : PInv v ir sh s j rg ph)
+    (hdur : s.durable.map (fun e => (e.key, e.id)) = sh.store.map (fun l => (v.keyOf l, l.id)))
+    (hpend : s.pending = sh.queue.map (entryOf v)) (hS : SInv v sh)
+    (g1 : ∀ k b, (v.K, k, b) ∈ sh.held → (k, b) ∈ s.held)
+    (g2 : ∀ k b, b ≠ j.a → (k, b) ∈ s.held → (v.K, k, b) ∈ sh.held) :
+    ∃ s', runOn (gm v ir) s (evsOf sh j rg x) = .ok s' ∧ s'.pending = (effSh sh j rg x).queue.map (entryOf v) ∧
+      PInv v ir (effSh sh j rg x) s' j (effRg sh j rg x) ph' ∧ SInv v (effSh sh j rg x) := by
+  cases htok : gtok v j.ep x with
+  | other =>
+    rw [htok] at hph; simp only [gstep, Option.some.injEq] at hph; subst hph
+    have hq : runOn (gm v ir) s (evsOf sh j rg x) = .ok s :=
+      runOn_ignored _ s _ (evs_quiet v ir j.ep sh j rg x (by rw [htok]; rfl) (job_rev hP.job))
+    exact ⟨s, hq, still v ir sh s s j rg x _ hP hpend hS (fun _ => Iff.rfl) (fun _ h => h) rfl (by simp [htok])
+      (by simp [htok]) (by simp [htok]) (by simp [htok]) (by simp [htok]) (by simp [htok])⟩
+  | yield =>
+    rw [htok] at hph; simp only [gstep] at hph
+    split at hph
+    · cases hph
+    · simp only [Option.some.injEq] at hph; subst hph
+      have hq : runOn (gm v ir) s (evsOf sh j rg x) = .ok s :=
+        runOn_ignored _ s _ (evs_quiet v ir j.ep sh j rg x (by rw [htok]; rfl) (job_rev hP.job))
+      exact ⟨s, hq, still v ir sh s s j rg x _ hP hpend hS (fun _ => Iff.rfl) (fun _ h => h) rfl (by simp [htok])
+        (by simp [htok]) (by simp [htok]) (by simp [htok]) (by simp [htok]) (by simp [htok])⟩
+  | takeNo =>
+    rw [htok] at hph; simp only [gstep, Option.some.injEq] at hph; subst hph
+    obtain ⟨key, o, via, rfl, ho⟩ := tok_takeNo htok
+    have hfree : keyFree sh j v.K = false := by
+      simpa [enabled, ho] using hen
+    have hheld : Guard.isHeld s (j.key v.K) = true := by
+      rw [isHeld_iff]
+      simp only [keyFree, Bool.not_eq_false', List.any_eq_true, decide_eq_true_eq] at hfree
+      obtain ⟨⟨K, k, b⟩, hmem, hK, hk⟩ := hfree
+      simp only at hK hk
+      subst hK; subst hk
+      exact ⟨b, g1 _ _ hmem⟩
+    have hq : runOn (gm v ir) s (evsOf sh j rg (.act (.take v.K key) o via)) = .ok s := by
+      simp only [evsOf]
+      apply runOn_single
+      simp only [Guard.stepOf, view_taken, if_true, ho, decide_false]
+      exact step_take_no s j.a _ hheld
+    exact ⟨s, hq, still v ir sh s s j rg _ _ hP hpend hS (fun _ => Iff.rfl) (fun _ h => h) rfl (by simp [htok])
+      (by simp [htok]) (by simp [htok]) (by simp [htok]) (by simp [htok]) (by simp [htok])⟩
+  | hit =>
+    rw [htok] at hph; simp only [gstep] at hph
+    split at hph
+    · rename_i r sys hhold
+      split at hph
+      · cases hph
+      · rename_i hdirty
+        simp only [Option.some.injEq] at hph; subst hph
+        have hne : ph.hold ≠ .idle := by rw [hhold]; simp
+        have hk : (j.key v.K, j.a) ∈ s.held := (hP.held _).2 ⟨hne, rfl⟩
+        have hcl := pend_clean v s sh j.a hpend (hP.clean (by simpa using hdirty))
+        have hp0 : s.pending.any (fun e => e.by_ = j.a ∧ e.key = j.key v.K) = false :=
+          List.any_eq_false.mpr (fun e he => by simp [hcl e he])
+        have hq : runOn (gm v ir) s (evsOf sh j rg x) = .ok s := by
+          rcases tok_hit htok with ⟨rfl, key, via, rfl⟩ | ⟨rfl, key, via, rfl⟩
+          · simp only [evsOf]
+            apply runOn_single
+            have hf : (sh.store.find? (fun l => l.ik = j.req.ik)).isSome = true := by simpa [enabled] using hen
+            simp only [Guard.stepOf, view_ikRead, if_true, Option.isSome_map, hf]
+            refine step_read_hit s j.a _ hk ?_ hp0
+            rw [dur_any .ik s sh hdur]
+            simp only [List.find?_isSome, decide_eq_true_eq] at hf
+            simp only [VId.keyOf, List.any_eq_true]
+            obtain ⟨l, hl, hle⟩ := hf
+            exact ⟨l, hl, decide_eq_true hle⟩
+          · simp only [evsOf]
+            apply runOn_single
+            have hf : sh.store.any (fun l => l.ref = j.req.ref) = true := by simpa [enabled] using hen
+            simp only [Guard.stepOf, view_refRead, if_true]
+            refine step_read_hit s j.a _ hk ?_ hp0
+            rw [dur_any .ref s sh hdur]
+            exact hf
+        exact ⟨s, hq, still v ir sh s s j rg x _ hP hpend hS (fun _ => Iff.rfl) (fun _ h => h) rfl (by simp [htok])
+          (by simp [htok]) (by simp [htok]) (by simp [htok]) (by simp [htok]) (by simp [htok])⟩
+    · cases hph
+  | miss =>
+    rw [htok] at hph; simp only [gstep] at hph
+    have hv : v ≠ .rev := by rcases tok_miss htok with ⟨rfl, _⟩ | ⟨rfl, _⟩ <;> simp
+    have hx : ∃ r sys, ph.hold = .on r sys ∧ ph.dirty = false ∧ ph' = { ph with hold := .on .missed sys } := by
+      split at hph
+      · split at hph
+        · cases hph
+        · rename_i sys hh hd; exact ⟨_, sys, hh, by simpa using hd, by simpa using hph.symm⟩
+      · split at hph
+        · cases hph
+        · rename_i sys hh hd; exact ⟨_, sys, hh, by simpa using hd, by simpa using hph.symm⟩
+      · cases hph
+    obtain ⟨r, sys, hhold, hdirty, rfl⟩ := hx
+    have hne : ph.hold ≠ .idle := by rw [hhold]; simp
+    have hk : (j.key v.K, j.a) ∈ s.held := (hP.held _).2 ⟨hne, rfl⟩
+    have hcl := pend_clean v s sh j.a hpend (hP.clean hdirty)
+    have hp0 : s.pending.any (fun e => e.by_ = j.a ∧ e.key = j.key v.K) = false :=
+      List.any_eq_false.mpr (fun e he => by simp [hcl e he])
+    have hq : runOn (gm v ir) s (evsOf sh j rg x) = .ok { s with missed := (j.a, j.key v.K) :: s.missed } := by
+      rcases tok_miss htok with ⟨rfl, key, via, rfl⟩ | ⟨rfl, key, via, rfl⟩
+      · simp only [evsOf]
+        apply runOn_single
+        have hf : (sh.store.find? (fun l => l.ik = j.req.ik)).isNone = true := by simpa [enabled] using hen
+        simp only [Guard.stepOf, view_ikRead, if_true, Option.isSome_none]
+        refine step_read_miss s j.a _ hk ?_ hp0
+        rw [dur_any .ik s sh hdur]
+        simp only [Option.isNone_iff_eq_none, List.find?_eq_none] at hf
+        simp only [VId.keyOf, List.any_eq_false]
+        exact hf
+      · simp only [evsOf]
+        apply runOn_single
+        have hf : sh.store.any (fun l => l.ref = j.req.ref) = false := by simpa [enabled] using hen
+        simp only [Guard.stepOf, view_refRead, if_true]
+        refine step_read_miss s j.a _ hk ?_ hp0
+        rw [dur_any .ref s sh hdur]
+        exact hf
+    obtain ⟨h1, h2, h3⟩ := still v ir sh s { s with missed := (j.a, j.key v.K) :: s.missed } j rg x _ hP hpend hS
+      (fun _ => Iff.rfl) (fun _ h => List.mem_cons_of_mem _ h) rfl (by simp [htok])
+      (by simp [htok]) (by simp [htok]) (by simp [htok]) (by simp [htok]) (by simp [htok])
+    refine ⟨_, hq, h1, ?_, h3⟩
+    exact pinv_hold v ir _ _ j _ ph (.on .missed sys) h2 (by simp [hhold]) (by simp [hhold, sysOf])
+      (fun _ _ => List.mem_cons_self) (fun _ h => by cases h) (fun h => absurd h hv)
+  | missTx =>
+    rw [htok] at hph; simp only [gstep] at hph
+    obtain ⟨rfl, hep, key, via, rfl⟩ := tok_missTx htok
+    split at hph
+    · rename_i r sys hhold
+      split at hph
+      · cases hph
+      · rename_i hdirty
+        simp only [Option.some.injEq] at hph; subst hph
+        have hne : ph.hold ≠ .idle := by rw [hhold]; simp
+        have hk : (j.key VId.rev.K, j.a) ∈ s.held := (hP.held _).2 ⟨hne, rfl⟩
+        have hcl := pend_clean .rev s sh j.a hpend (hP.clean (by simpa using hdirty))
+        have hp0 : s.pending.any (fun e => e.by_ = j.a ∧ e.key = j.key VId.rev.K) = false :=
+          List.any_eq_false.mpr (fun e he => by simp [hcl e he])
+        have hq : runOn (gm .rev ir) s (evsOf sh j rg (.act (.readTx key) .notFound via)) =
+            .ok { s with missed := (j.a, j.key VId.rev.K) :: s.missed } := by
+          simp only [evsOf]
+          apply runOn_single
+          have hf : sh.store.any (fun l => l.txid = some j.req.target) = false := by simpa [enabled] using hen
+          simp only [Guard.stepOf, view_txRead, ir_of_rev hP.job hep, and_self, if_true]
+          refine step_read_miss s j.a _ hk ?_ hp0
+          rw [dur_any .rev s sh hdur]
+          simp only [VId.keyOf, List.any_eq_false, decide_eq_true_eq, revKey_eq_toString]
+          intro l hl hr
+          have := hS l (.inl hl) _ hr
+          rw [hf] at this
+          cases this
+        exact ⟨_, hq, still .rev ir sh s _ j rg _ _ hP hpend hS (fun _ => Iff.rfl) (fun _ h => List.mem_cons_of_mem _ h) rfl
+          (by simp [htok]) (by simp [htok]) (by simp [htok]) (by simp [htok]) (by simp [htok]) (by simp [htok])⟩
+    · cases hph
+  | unrev =>
+    rw [htok] at hph; simp only [gstep] at hph
+    obtain ⟨rfl, hep, rfl⟩ := tok_unrev htok
+    have hq : runOn (gm .rev ir) s (evsOf sh j rg (.choose "reverted" false)) = .ok s :=
+      runOn_ignored _ s _ (evs_quiet .rev ir j.ep sh j rg _ (by rw [htok]; rfl) (job_rev hP.job))
+    obtain ⟨h1, h2, h3⟩ := still .rev ir sh s s j rg (.choose "reverted" false) _ hP hpend hS (fun _ => Iff.rfl) (fun _ h => h) rfl (by simp [htok])
+      (by simp [htok]) (by simp [htok]) (by simp [htok]) (by simp [htok]) (by simp [htok])
+    have hrv : rg.reverted = some false := by simpa [enabled, atomOk] using hen
+    split at hph
+    · rename_i sys hhold
+      simp only [Option.some.injEq] at hph; subst hph
+      refine ⟨s, hq, h1, ?_, h3⟩
+      have hl := (hP.look sys hhold).2.2 hrv
+      exact pinv_hold .rev ir _ _ j _ ph (.on .missed sys) h2 (by simp [hhold]) (by simp [hhold, sysOf])
+        (fun _ _ => hl) (fun _ h => by cases h) (fun _ _ => hP.seen rfl (by rw [hhold]; rfl))
+    · simp only [Option.some.injEq] at hph; subst hph
+      exact ⟨s, hq, h1, h2, h3⟩
+  | _ => sorry
+
 end Engine.Skel.GuardRef
